@@ -24,7 +24,9 @@ func (sc *Scenario) Materialize(root string, resultDir string) ([]string, error)
 			return nil, err
 		}
 	}
-	w := func(name, content string) error { return os.WriteFile(filepath.Join(proj, name), []byte(content), 0644) }
+	w := func(name, content string) error {
+		return os.WriteFile(filepath.Join(proj, name), []byte(content), 0644)
+	}
 	p := sc.Project
 	if err := w("config.yml", sc.configYAML()); err != nil {
 		return nil, err
@@ -320,7 +322,7 @@ func drainFracTxt(f float64) string {
 		return "1.0"
 	default:
 		s := strconv.FormatFloat(f, 'f', 2, 64) // 0.25
-		return s[1:]                           // .25
+		return s[1:]                            // .25
 	}
 }
 
